@@ -143,6 +143,46 @@ Fixpoint merge_iter (a : list kv) : list kv -> list kv :=
         end
     end.
 
+(** *** Iterator (iterator.go): the set and an index, -1 before the first Next.  ToSlice rewinds,
+    walks to the end and leaves the index there (it leaves an empty set's iterator alone). *)
+Record iter := { it_set : list kv; it_idx : Z }.
+Definition iter_new (s : list kv) : iter := {| it_set := s; it_idx := (-1)%Z |}.
+Definition iter_attr (it : iter) : kv :=
+  if (it_idx it <? 0)%Z then zero_kv else nth (Z.to_nat (it_idx it)) (it_set it) zero_kv.
+Definition iter_step (it : iter) (op : iop) : iter * iobs :=
+  match op with
+  | INext => let i := (it_idx it + 1)%Z in
+             ({| it_set := it_set it; it_idx := i |}, ONext (i <? Z.of_nat (length (it_set it)))%Z)
+  | IAttr => (it, OAttr (iter_attr it))
+  | IIndexed => (it, OIndexed (it_idx it) (iter_attr it))
+  | ILen => (it, OLen (N.of_nat (length (it_set it))))
+  | IToSlice => ({| it_set := it_set it;
+                    it_idx := match it_set it with [] => it_idx it | _ :: _ => Z.of_nat (length (it_set it)) end |},
+                 OSlice (it_set it))
+  end.
+Fixpoint iter_run (it : iter) (ops : list iop) : list iobs :=
+  match ops with
+  | [] => []
+  | op :: r => let '(it', o) := iter_step it op in o :: iter_run it' r
+  end.
+
+(** MergeIterator: what is left of the merged sequence and the current attribute (Next / Attribute only). *)
+Record miter := { mi_rest : list kv; mi_cur : kv }.
+Definition miter_new (a b : list kv) : miter := {| mi_rest := merge_iter a b; mi_cur := zero_kv |}.
+Definition miter_step (m : miter) (op : iop) : miter * iobs :=
+  match op with
+  | INext => match mi_rest m with
+             | [] => (m, ONext false)
+             | x :: r => ({| mi_rest := r; mi_cur := x |}, ONext true)
+             end
+  | _ => (m, OAttr (mi_cur m))
+  end.
+Fixpoint miter_run (m : miter) (ops : list iop) : list iobs :=
+  match ops with
+  | [] => []
+  | op :: r => let '(m', o) := miter_step m op in o :: miter_run m' r
+  end.
+
 (** *** Default encoder (encoder.go), for keys and strings that are valid UTF-8. *)
 Definition esc (s : bytes) : bytes :=
   flat_map (fun c => if (c =? 61) || (c =? 44) || (c =? 92) then [92; c] else [c]) s.
